@@ -49,9 +49,14 @@ def observe_case(case):
     mod = b[1]
     obs = []
     start = case['g'].get('start')
+    ntimeouts = 0
     for run in case['runs']:
         entry, text, pos = run[0], run[1], run[2]
         full = run[3] if len(run) > 3 else True
+        if ntimeouts >= 3:
+            # this module hangs again and again: do not spend minutes on the remaining runs
+            obs.append(['timeout', 'not run: three runs of this grammar already timed out'])
+            continue
         try:
             if entry == start and not cfg.get('via_rule', False):
                 fn = mod.parse
@@ -63,6 +68,8 @@ def observe_case(case):
         obs.append(realrun.call_parse(mod, fn, realrun.to_text(text, bm), pos, full,
                                       spans=cfg.get('spans', False),
                                       per_case_timeout=5.0 * cfg.get('timeout_scale', 1)))
+        if obs[-1][0] == 'timeout':
+            ntimeouts += 1
     name = cfg.get('name')
     if name:
         sys.modules.pop(name, None)
